@@ -16,6 +16,8 @@ COMMON_ASSUMPTIONS = [
 
 # theorem names that must be present in Props/<id>.lean (guards against an obligation silently disappearing)
 EXPECTED_THEOREMS = {
+    "C07": ["queue_exactly_once", "log_values_are_taken", "no_lost_wakeup", "quiescent_blocked_implies_empty", "look_enabled"],
+    "C17": ["token_conservation", "tokens_preserve_requests", "try_recv_never_blocks", "recv_empty_only_by_token", "recv_timeout_bounds"],
     "C02": ["head_roundtrip", "method_table", "delivered_is_parsed"],
     "C03": ["limited_read_exact", "buffered_read_exact", "buffered_is_next_n", "upgrade_read_exact", "empty_read", "chunked_read_exact", "te_precedence", "declared_length", "no_framing_no_body"],
     "C09": ["next_head_offset_limited", "next_head_offset_buffered", "next_head_offset_empty", "next_head_offset_chunked", "chunked_read_then_drain"],
